@@ -68,7 +68,7 @@ class Run:
         self.notes.append(s)
 
 
-VIEWS = ("new", "cons-broad", "cons", "aggr-broad", "aggr")
+VIEWS = ("new", "new+c", "cons-broad", "cons", "aggr-broad", "aggr", "aggr+c")
 
 
 def _call_rule(run, fn, db):
